@@ -441,10 +441,31 @@ func (c *Ctx) deferredBody(pfx string, body *ssa.Function) {
 			if !ok || fieldNameOf(fa) != "Result" {
 				continue
 			}
-			if g2, ok := loadGlobal(an.Strip(st.Val)); ok && g2.Name() == "Null" {
-				for _, f := range an.Facts(st) {
+			invalidFact := func(fs []an.Fact) bool {
+				for _, f := range fs {
 					if fa2, ok := loadAddr(f.X).(*ssa.FieldAddr); ok && fieldNameOf(fa2) == "Invalids" && f.Op == token.GTR {
-						okNull = true
+						return true
+					}
+				}
+				return false
+			}
+			isNull := func(v ssa.Value) bool {
+				g2, ok := loadGlobal(an.Strip(v))
+				return ok && g2.Name() == "Null"
+			}
+			if isNull(st.Val) && invalidFact(an.Facts(st)) {
+				okNull = true
+			}
+			// the value was chosen before the struct is built: a phi edge or a store into the local, of Null, under Invalids > 0
+			for _, ve := range valueEdges(st.Val, st.Block()) {
+				if isNull(ve.val) && invalidFact(factsOn(ve)) {
+					okNull = true
+				}
+				if ld, isLd := ve.val.(*ssa.UnOp); isLd && an.IsLocalCell(ld.X) {
+					for _, cs := range an.CellStores(ld.X) {
+						if isNull(cs.Val) && invalidFact(an.Facts(cs)) {
+							okNull = true
+						}
 					}
 				}
 			}
